@@ -1,7 +1,8 @@
 (** C30 — a small core of Erg with lexical scoping, binder resolution and renaming.
 
     The core has what the property's quantifier names: definitions in nested scopes (shadowing), functions with one
-    or two parameters of which the second may have a default value (an expression of the enclosing scope), nested
+    or two parameters of which the second may have a default value (an expression of the enclosing scope, in which the function's own name is
+    already bound, as in erg), nested
     functions that capture outer names (closures), string literals (which may contain the text of any identifier and
     are never an occurrence), calls, addition, print.  Every identifier occurrence (binder or use) carries a
     position [pos]; the pretty-printer of checks/c30.py maps positions to source ranges.
@@ -64,7 +65,7 @@ Fixpoint occ (b : pos) (en : env) (t : block) : list pos :=
                    | Some (p2, x2, _) => (x2, p2) :: (x1, p1) :: enf
                    end in
       self b p ++ self b p1 ++
-      match d with Some (p2, _, e) => self b p2 ++ occ_expr b en e | None => [] end ++
+      match d with Some (p2, _, e) => self b p2 ++ occ_expr b enf e | None => [] end ++
       occ b inner body ++ occ b enf k
   | Print e k => occ_expr b en e ++ occ b en k
   end.
@@ -131,7 +132,7 @@ Fixpoint erase (en : env) (t : block) : nblock :=
                    | None => (x1, p1) :: enf
                    | Some (p2, x2, _) => (x2, p2) :: (x1, p1) :: enf
                    end in
-      NFun p p1 (match d with Some (p2, _, e) => Some (p2, erase_expr en e) | None => None end)
+      NFun p p1 (match d with Some (p2, _, e) => Some (p2, erase_expr enf e) | None => None end)
            (erase inner body) (erase enf k)
   | Print e k => NPrint (erase_expr en e) (erase en k)
   end.
@@ -156,7 +157,7 @@ Fixpoint uses (en : env) (t : block) : list (pos * name * option pos) :=
                    | None => (x1, p1) :: enf
                    | Some (p2, x2, _) => (x2, p2) :: (x1, p1) :: enf
                    end in
-      match d with Some (_, _, e) => uses_expr en e | None => [] end ++ uses inner body ++ uses enf k
+      match d with Some (_, _, e) => uses_expr enf e | None => [] end ++ uses inner body ++ uses enf k
   | Print e k => uses_expr en e ++ uses en k
   end.
 
@@ -233,7 +234,7 @@ Fixpoint agrees (S : pos -> bool) (b : pos) (en : env) (t : block) : bool :=
                    | Some (p2, x2, _) => (x2, p2) :: (x1, p1) :: enf
                    end in
       Bool.eqb (S p) (p =? b) && Bool.eqb (S p1) (p1 =? b) &&
-      match d with Some (p2, _, e) => Bool.eqb (S p2) (p2 =? b) && agrees_expr S b en e | None => true end &&
+      match d with Some (p2, _, e) => Bool.eqb (S p2) (p2 =? b) && agrees_expr S b enf e | None => true end &&
       agrees S b inner body && agrees S b enf k
   | Print e k => agrees_expr S b en e && agrees S b en k
   end.
